@@ -176,7 +176,7 @@ func famClass(f string) string {
 func c01plan(tier string, seed int64) []run.Job {
 	var jobs []run.Job
 	jobs = append(jobs, run.Job{Family: "corpus"})
-	nr, per := 16, 70
+	nr, per := 16, 260
 	maxNodes := 5
 	if tier == "thorough" {
 		nr, per, maxNodes = 64, 420, 7
